@@ -140,10 +140,15 @@ class RankSelection(SelectionFunction[T]):
         """
         random_value = randomness.next_float()
         bias = self.bias
-        return int(
-            len(population)
-            * ((bias - sqrt(bias**2 - (4.0 * (bias - 1.0) * random_value))) / 2.0 / (bias - 1.0))
-        )
+        if bias == 1.0:
+            # No selection pressure: the formula degenerates to a uniform choice.
+            quantile = random_value
+        else:
+            # Rounding may yield a slightly negative radicand for a bias close to 2.0.
+            radicand = max(bias**2 - (4.0 * (bias - 1.0) * random_value), 0.0)
+            quantile = (bias - sqrt(radicand)) / 2.0 / (bias - 1.0)
+        # Rounding may also push the quantile to 1.0 for random values close to 1.0.
+        return max(0, min(int(len(population) * quantile), len(population) - 1))
 
 
 class TournamentSelection(SelectionFunction[T]):
